@@ -382,7 +382,7 @@ pub fn run_history(ops: &[Op], rep: &mut Report, skip_pruned: bool) -> Result<bo
         match r {
             Err(p) => {
                 let msg = p.downcast_ref::<String>().cloned().or_else(|| p.downcast_ref::<&str>().map(|s| s.to_string())).unwrap_or_default();
-                std::mem::forget(w); // state may be poisoned
+                let _ = std::panic::catch_unwind(std::panic::AssertUnwindSafe(move || drop(w))); // state may be poisoned; still release the files
                 return Err(Failure { clause: "C01.nopanic".into(), detail: format!("panic: {msg}"), history: hist });
             }
             Ok(Step::Pruned) => { hist.pop(); if skip_pruned { continue; } else { return Ok(false); } }
@@ -398,7 +398,7 @@ pub fn run_history(ops: &[Op], rep: &mut Report, skip_pruned: bool) -> Result<bo
         match chk {
             Err(p) => {
                 let msg = p.downcast_ref::<String>().cloned().or_else(|| p.downcast_ref::<&str>().map(|s| s.to_string())).unwrap_or_default();
-                std::mem::forget(w);
+                let _ = std::panic::catch_unwind(std::panic::AssertUnwindSafe(move || drop(w)));
                 return Err(Failure { clause: "C01.nopanic".into(), detail: format!("panic while reading back: {msg}"), history: hist });
             }
             Ok(Err((c, d))) => return Err(Failure { clause: c, detail: d, history: hist }),
